@@ -60,6 +60,34 @@ def walk (args : List String) : String :=
     | some cur => render cur == got
   s!"match={if ok then 1 else 0}"
 
+/-- iso.walkid names=… dirs=… got=short.ext;… ids=cp,…|cp,… : as iso.walk (some processing order of the
+    collision groups explains the names `walkTree` left), and the identifiers the real
+    `finalizeFileInfo.Name()` made of them are `isoIdent` of the model's resolved names (SHORT for a
+    directory whatever followed the first dot of its host name, SHORT.EXT;1 for a file) and pairwise
+    distinct → match=0|1 ids=0|1 distinct=0|1 -/
+def walkId (args : List String) : String :=
+  let names := parseNames ((arg args "names").getD "")
+  let dirs := ((arg args "dirs").getD "").toList.map (· == '1')
+  let got := (arg args "got").getD ""
+  let ids := parseNames ((arg args "ids").getD "")
+  let orig : Array Nm := ((names.zip dirs).map fun (n, d) => entryName n d).toArray
+  let origF : Nat → Nm := fun i => orig.getD i ([], [])
+  let n := orig.size
+  let keys := (List.range n).map origF |>.eraseDups |>.filter fun k => (members n origF k).length > 1
+  let render := fun (cur : Nat → Nm) => ";".intercalate ((List.range n).map fun i => nmStr (cur i))
+  if keys.length > 5 then "match=skipped" else
+  let found := (perms keys).findSome? fun ord =>
+    match resolveAll n origF ord origF with
+    | none => none
+    | some cur => if render cur == got then some ((List.range n).map cur) else none
+  match found with
+  | none => "match=0\tids=0\tdistinct=0"
+  | some cur =>
+    let want := (cur.zip dirs).map fun (nm, d) => isoIdent nm d
+    let same := want == ids
+    let distinct := want.eraseDups.length == want.length
+    s!"match=1\tids={if same then 1 else 0}\tdistinct={if distinct then 1 else 0}"
+
 /-- entry syntax: parent:identhex:kind:size:recLen:jlen:ce:selfLen:parLen separated by ';' -/
 def parseEnt (s : String) : Option Ent :=
   match s.splitOn ":" with
@@ -350,6 +378,7 @@ partial def loop (h : IO.FS.Stream) (out : IO.FS.Stream) : IO Unit := do
       | "iso.short" => pure (Driver.Iso.short args)
       | "iso.resolve" => pure (Driver.Iso.resolve args)
       | "iso.walk" => pure (Driver.Iso.walk args)
+      | "iso.walkid" => pure (Driver.Iso.walkId args)
       | "iso.layout" => pure (Driver.Iso.layout args)
       | "iso.rec" => pure (Driver.Iso.recEnc args)
       | "iso.recparse" => pure (Driver.Iso.recDec args)
